@@ -134,6 +134,23 @@ func (m *Message) buildBody() {
 		}
 		fmt.Fprintf(&buf, "--%s--\r\n", s.Body.Boundary)
 		plain = buf.Bytes()
+	case "badform":
+		// labelled as a form, but no form parser accepts it; FormKind stays
+		// empty: there are no parameters to expect
+		filler := string(kit.Text(s.Body.Seed, s.Body.Size))
+		b := s.Body.Boundary
+		switch s.Body.Bad {
+		case "escape":
+			plain = []byte("filler=" + url.QueryEscape(filler) + "&name=J%ZZrgen")
+		case "semicolon":
+			plain = []byte("a=1;b=2&filler=" + url.QueryEscape(filler))
+		case "multipart-unclosed":
+			plain = []byte("--" + b + "\r\nContent-Disposition: form-data; name=\"a\"\r\n\r\n" + filler + "\r\n")
+		case "multipart-noboundary":
+			plain = []byte("--" + b + "\r\nContent-Disposition: form-data; name=\"a\"\r\n\r\n" + filler + "\r\n--" + b + "--\r\n")
+		default: // multipart-truncated
+			plain = []byte("--" + b + "\r\nContent-Disposition: form-data; name=\"a\"\r\n\r\n" + filler + "\r\n--" + b + "\r\nContent-Disposition: form-da")
+		}
 	default:
 		plain = []byte{}
 	}
@@ -242,7 +259,7 @@ func Build(s Spec) *Message {
 		m.add(&buf, h.Name, h.Value)
 	}
 	ct := s.ContentType
-	if s.Body.Kind == "multipart" {
+	if s.Body.Kind == "multipart" || (s.Body.Kind == "badform" && strings.HasPrefix(s.Body.Bad, "multipart") && s.Body.Bad != "multipart-noboundary") {
 		ct += "; boundary=" + s.Body.Boundary
 	}
 	m.ContentType = ct
